@@ -9,6 +9,7 @@ from tiv.match import b2s, find_exprs, find_stmts, match_expr, match_stmt
 from tiv.affine import NotPoly, equal, parse
 from tiv.mutate import M
 from tiv.constfold import Folder
+from tiv.sem import trace, expand, same
 
 RULES = {
     "R1": "chunk protocol (Transmission.get_chunks): the default chunk size is an int literal <= 4096 and a multiple of 4 and no call site "
@@ -87,47 +88,80 @@ def run(ck, m):
         ck.ob("R2", fcls, ftab.get(md) == 8 * len(md), f"image mode {md!r} can reach the kitty renderer but `f.{md}` is {ftab.get(md)} (must be {8 * len(md)} bits per pixel)", stmt=f"f.{md} == {8 * len(md)}")
     kr = m.get(KT, "KittyImage._render_image")
     ir = m.get(IT, "ITerm2Image._render_image")
-    fm = find_stmts("$$fmt = getattr(f, img.mode)", body_walk(kr))
-    ck.ob("R2", kr, len(fm) == 1, "kitty must derive the data format from the mode of the image it transmits: getattr(f, img.mode)", stmt="kitty: format = getattr(f, img.mode)")
-    fmt = norm(fm[0][1]["fmt"]) if fm else "format"
+    # (the data format must be getattr(f, <converted image>.mode): checked with the control keys in R3)
 
     # ---- R3 ----------------------------------------------------------------------------
-    rs = find_stmts("$$rw, $$rh = self.rendered_size", body_walk(kr))
-    wh = next((s for s in body_walk(kr) if isinstance(s, ast.Assign) and isinstance(s.targets[0], ast.Tuple) and isinstance(s.value, ast.IfExp) and "_get_minimal_render_size" in norm(s.value)), None)
-    ck.expect(len(rs) == 1 and wh is not None, "kitty renderer: `r_width, r_height = self.rendered_size` / `width, height = ...` not recognised")
-    if len(rs) == 1 and wh is not None:
-        rw, rh = norm(rs[0][1]["rw"]), norm(rs[0][1]["rh"])
-        W, H = [norm(e) for e in wh.targets[0].elts]
-        ck.ob("R3", wh, norm(wh.value) == "self._get_minimal_render_size() if render_method == WHOLE else self._get_render_size()", "pixel size: minimal render size for WHOLE, full render size otherwise", stmt="kitty: (width, height) source")
-        gd = next((c for c in body_walk(kr) if isinstance(c, ast.Call) and (call_name(c) or "").endswith("_get_render_data")), None)
-        ck.ob("R3", enclosing_stmt(gd) if gd else kr, gd is not None and norm(kw(gd, "size")) == f"({W}, {H})" and norm(kw(gd, "pixel_data")) == "False" and norm(kw(gd, "frame")) == "frame",
-              "the image must be converted at exactly the transmitted pixel size", stmt="kitty: _get_render_data(size=(width, height))")
+    # Everything is compared on *traced* expressions (tiv.sem.trace: locals replaced by where their value comes from), so the
+    # rule does not depend on local names, helper locals or statement grouping.
+    def T(e):
+        return trace(kr, e)
+
+    RS0, RS1 = "self.rendered_size[0]", "self.rendered_size[1]"
+    gd = next((c for c in body_walk(kr) if isinstance(c, ast.Call) and (call_name(c) or "").endswith("_get_render_data")), None)
+    ck.need(gd is not None, "kitty renderer: _get_render_data(...) call not found")
+    size_t = T(kw(gd, "size")) if kw(gd, "size") is not None else None
+    P = None
+    if size_t is not None:
+        b_ = match_expr("($P[0], $P[1])", size_t)
+        P = b_["P"] if b_ is not None else size_t
+    okP = P is not None and match_expr("self._get_minimal_render_size() if (method or self._render_method).lower() == WHOLE else self._get_render_size()", P) is not None
+    ck.ob("R3", enclosing_stmt(gd), okP and norm(kw(gd, "pixel_data")) == "False" and norm(kw(gd, "frame")) == "frame",
+          f"the image must be converted at exactly the transmitted pixel size: minimal render size for WHOLE, full render size otherwise; found size=`{norm(size_t) if size_t is not None else None}`",
+          stmt="kitty: _get_render_data(size=<pixel size>), pixel size source")
+    if okP:
+        Pn = norm(P)
+        P0, P1 = f"({Pn})[0]", f"({Pn})[1]"
+        IMG = norm(T(ast.Subscript(value=gd, slice=ast.Constant(value=0), ctx=ast.Load())))
+        FMT = f"getattr(f, {IMG}.mode)"
+
+        def eq(e, want):
+            try:
+                return equal(T(e), parse(want))
+            except NotPoly:
+                return norm(T(e)) == norm(parse(want))
         cd = next((c for c in body_walk(kr) if isinstance(c, ast.Call) and call_name(c) == "ControlData"), None)
         ck.need(cd is not None, "kitty renderer: ControlData(...) not found")
-        kws = {k.arg: norm(k.value) for k in cd.keywords}
-        ck.ob("R3", enclosing_stmt(cd), kws == {"f": fmt, "s": W, "c": rw, "z": "z_index"}, f"control keys must be f<-format, s<-pixel width, c<-rendered width, z<-z_index; found {kws}", stmt="kitty: ControlData(f, s, c, z)")
-        ups = [c for c in body_walk(kr) if isinstance(c, ast.Call) and norm(c.func) == "vars(control_data).update"]
-        lines_if = next((s for s in kr.body if isinstance(s, ast.If) and norm(s.test) == "render_method == LINES"), None)
-        ck.expect(len(ups) == 2 and lines_if is not None, "kitty renderer: the two vars(control_data).update(...) / LINES branch not recognised")
-        if len(ups) == 2 and lines_if is not None:
-            for u in ups:
-                k = {x.arg: norm(x.value) for x in u.keywords}
-                if any(a is lines_if for a in _anc(u)):
-                    ch = find_stmts(f"$$ch = {H} // {rh}", lines_if.body)
-                    ck.ob("R3", enclosing_stmt(u), len(ch) == 1 and k == {"v": norm(ch[0][1]["ch"]), "r": "1"}, f"LINES: each strip is v = height // r_height pixels high and r = 1 row; found {k}", stmt="kitty LINES: v=cell_height, r=1")
-                    if ch:
-                        chn = norm(ch[0][1]["ch"])
-                        bpl = find_stmts("$$b = $e", lines_if.body)
-                        bb = next((b_ for s_, b_ in bpl if "bytes" in norm(b_["b"])), None)
-                        try:
-                            okb = bb is not None and equal(bb["e"], parse(f"{W} * {chn} * ({fmt} // 8)"))
-                        except NotPoly:
-                            okb = False
-                        ck.ob("R3", lines_if, okb, f"LINES: a strip is width * cell_height * (format // 8) bytes; found `{norm(bb['e']) if bb else None}`", stmt="kitty LINES: bytes per strip")
-                        rd = [c for c in walk_local(lines_if) if isinstance(c, ast.Call) and norm(c.func) == "raw_image.read"]
-                        ck.ob("R3", lines_if, len(rd) == 2 and all(norm(c.args[0]) == (norm(bb["b"]) if bb else "?") for c in rd), "each strip reads exactly bytes_per_line from the raw image", stmt="kitty LINES: strips read bytes_per_line")
-                else:
-                    ck.ob("R3", enclosing_stmt(u), k == {"v": H, "r": rh}, f"WHOLE: v<-pixel height, r<-rendered height; found {k}", stmt="kitty WHOLE: v=height, r=r_height")
+        kws = {k.arg: k.value for k in cd.keywords}
+        okc = set(kws) == {"f", "s", "c", "z"} and eq(kws["f"], FMT) and eq(kws["s"], P0) and eq(kws["c"], RS0) and norm(kws["z"]) == "z_index"
+        ck.ob("R3", enclosing_stmt(cd), okc, f"control keys must be f<-getattr(f, img.mode), s<-pixel width, c<-rendered width, z<-z_index; found { {k: norm(T(v)) [:60] for k, v in kws.items()} }", stmt="kitty: ControlData(f, s, c, z)")
+        cdv = next((norm(t) for t, st in m.stores(kr) if isinstance(st, ast.Assign) and st.value is cd), "control_data")
+        # later key settings: vars(cd).update(k=v) or cd.k = v, grouped by the LINES / not-LINES context
+        sets = {"lines": {}, "whole": {}}
+        lines_key = "(method or self._render_method).lower() == LINES"
+
+        def ctx_of(n):
+            from tiv.emit import facts_from_guards
+            f_ = facts_from_guards(kr, n)
+            return "lines" if f_.get(lines_key) is True else "whole" if f_.get(lines_key) is False else None
+        for n in body_walk(kr):
+            if isinstance(n, ast.Call) and norm(n.func) == f"vars({cdv}).update":
+                for k in n.keywords:
+                    sets.setdefault(ctx_of(n), {})[k.arg] = k.value
+            if isinstance(n, ast.Assign) and len(n.targets) == 1 and isinstance(n.targets[0], ast.Attribute) and norm(n.targets[0].value) == cdv:
+                sets.setdefault(ctx_of(n), {})[n.targets[0].attr] = n.value
+        ck.expect(None not in sets and set(sets["lines"]) == {"v", "r"} and set(sets["whole"]) == {"v", "r"}, f"kitty renderer: v/r control keys per render method not recognised ({ {k: sorted(v) for k, v in sets.items()} })")
+        if None not in sets and set(sets["lines"]) == {"v", "r"} and set(sets["whole"]) == {"v", "r"}:
+            L, Wh = sets["lines"], sets["whole"]
+            ck.ob("R3", enclosing_stmt(L["v"]), eq(L["v"], f"{P1} // {RS1}") and eq(L["r"], "1"), f"LINES: each strip is v = height // r_height pixels high and r = 1 row; found v={norm(T(L['v']))[:80]}, r={norm(T(L['r']))}", stmt="kitty LINES: v=cell_height, r=1")
+            ck.ob("R3", enclosing_stmt(Wh["v"]), eq(Wh["v"], P1) and eq(Wh["r"], RS1), f"WHOLE: v<-pixel height, r<-rendered height; found v={norm(T(Wh['v']))[:80]}, r={norm(T(Wh['r']))}", stmt="kitty WHOLE: v=height, r=r_height")
+        trs = [c for c in body_walk(kr) if isinstance(c, ast.Call) and call_name(c) == "Transmission"]
+        ck.expect(len(trs) >= 2, f"kitty renderer: expected >= 2 Transmission(...) constructions, found {len(trs)}")
+        for c in trs:
+            ck.expect(len(c.args) >= 2, "kitty renderer: Transmission(...) without a positional payload")
+            if len(c.args) < 2:
+                continue
+            pay = T(c.args[1])
+            if ctx_of(c) == "lines":
+                b_ = match_expr("io.BytesIO($raw).read($n)", pay)
+                okp = b_ is not None and norm(b_["raw"]) == f"{IMG}.tobytes()"
+                try:
+                    okn = b_ is not None and equal(b_["n"], parse(f"{P0} * ({P1} // {RS1}) * ({FMT} // 8)"))
+                except NotPoly:
+                    okn = False
+                ck.ob("R3", enclosing_stmt(c), okp and okn, "LINES: every strip's payload must be the next width * cell_height * (format // 8) bytes of the converted image's raw data; "
+                      f"found `{norm(pay)[:140]}`", stmt="kitty LINES: strips read bytes_per_line of img.tobytes()")
+            else:
+                ck.ob("R3", enclosing_stmt(c), norm(pay) == f"{IMG}.tobytes()", f"WHOLE: the payload must be the converted image's raw data; found `{norm(pay)[:120]}`", stmt="kitty WHOLE: payload = img.tobytes()")
     cdc = m.get(KT, "ControlData")
     dfl = {s.target.id: norm(s.value) for s in cdc.body if isinstance(s, ast.AnnAssign) and s.value is not None}
     ck.ob("R3", cdc, dfl.get("a") == "a.TRANS_DISP" and dfl.get("t") == "t.DIRECT" and dfl.get("C") == "C.STAY", f"ControlData defaults must be a=T (transmit+display), t=d (direct), C=1 (cursor stays); found a={dfl.get('a')}, t={dfl.get('t')}, C={dfl.get('C')}", stmt="ControlData defaults")
@@ -140,40 +174,94 @@ def run(ck, m):
     ck.ob("R3", cdc, consts.get("a.TRANS_DISP") == "T" and consts.get("t.DIRECT") == "d" and consts.get("C.STAY") == 1 and consts.get("o.ZLIB") == "z", "protocol constants a.TRANS_DISP='T', t.DIRECT='d', C.STAY=1, o.ZLIB='z'", stmt="kitty protocol constants")
     gcd = m.get(KT, "Transmission.get_control_data")
     ck.ob("R3", gcd, "f'{key}={value}'" in norm(gcd) and "asdict(self.control).items()" in norm(gcd) and "if value is not None" in norm(gcd), "control data must list key=value for every non-None key", stmt="get_control_data: key=value for non-None keys")
-    # iterm2 keys
-    irs = find_stmts("$$rw, $$rh = self.rendered_size", body_walk(ir))
-    ck.expect(len(irs) == 1, "iterm2 renderer: `r_width, r_height = self.rendered_size` not recognised")
-    if irs:
-        rw, rh = norm(irs[0][1]["rw"]), norm(irs[0][1]["rh"])
-        js = [n for n in body_walk(ir) if isinstance(n, ast.JoinedStr) and "width=" in norm(n)]
-        ck.expect(len(js) >= 3, f"iterm2 renderer: expected 3 control-data strings, found {len(js)}")
-        for j in js:
-            txt = norm(j)
-            in_lines = any(isinstance(a, ast.If) and norm(a.test) == "render_method == LINES" for a in _anc(j))
-            want_h = "height=1;" if in_lines else f"height={{{rh}}};"
-            ck.ob("R3", enclosing_stmt(j), f"width={{{rw}}}" in txt and want_h in txt and "preserveAspectRatio=0;inline=1" in txt,
-                  f"iterm2 control data must carry width=<rendered width>, {'height=1 (one row per strip)' if in_lines else 'height=<rendered height>'}, preserveAspectRatio=0, inline=1; found `{txt[:90]}`",
-                  stmt=f"iterm2 {'LINES' if in_lines else 'WHOLE/ANIM'}: width/height keys")
-        szs = [n for n in body_walk(ir) if isinstance(n, ast.JoinedStr) and "size=" in norm(n)]
-        for j in szs:
-            ck.ob("R3", enclosing_stmt(j), "size={compressed_image.tell()}" in norm(j), "size= must be the length of the encoded buffer (compressed_image.tell())", stmt="iterm2: size={compressed_image.tell()}")
-        ck.expect(len(szs) >= 3, "iterm2 renderer: size= strings not found")
-        bp = find_stmts("$$b = $e", body_walk(ir))
-        bb = next((b_ for s_, b_ in bp if "bytes_per_line" == norm(b_["b"])), None)
+    # iterm2 keys: read off the symbolic output shape (tiv.emit) - the text between ITERM2_START and the ':' that ends the arguments
+    from tiv import emit
+    ienv = Folder(m.tree("_ctlseqs.py")).env
+    n_ctl = 0
+
+    def control_strings(term):
+        """[text] of every `START key=value;...:` argument list in the term, Sym atoms written as <source>."""
+        out = []
+
+        def go(n):
+            if isinstance(n, emit.Seq):
+                i = 0
+                while i < len(n.items):
+                    it = n.items[i]
+                    if getattr(it, "name", None) == "ITERM2_START" and it.text.endswith("File="):
+                        txt, j, closed = "", i + 1, False
+                        while j < len(n.items) and not closed:
+                            x = n.items[j]
+                            if isinstance(x, emit.Lit):
+                                txt += x.text
+                                closed = x.text.endswith(":")
+                            elif isinstance(x, emit.Sym):
+                                txt += f"<{x.text}>"
+                            else:
+                                txt += "<?>"
+                            j += 1
+                        out.append((txt, closed))
+                        i = j
+                        continue
+                    go(it)
+                    i += 1
+            elif isinstance(n, emit.Rep):
+                go(n.body)
+            elif isinstance(n, emit.Alt):
+                go(n.a)
+                go(n.b)
+        go(term)
+        return out
+    for ret, facts, term in emit.summaries(ir, ienv):
+        cs = emit.cases(term, facts, limit=7)
+        ck.expect(cs is not None, "iterm2 renderer: too many free conditions in an output shape")
+        for f, t in cs or []:
+            lines = any("LINES" in k and v for k, v in f.items())
+            for txt, closed in control_strings(t):
+                n_ctl += 1
+                ck.expect(closed and "<?>" not in txt, f"iterm2 renderer: image arguments not in a recognised form: `{txt[:100]}`")
+                if not closed or "<?>" in txt:
+                    continue
+                kv = dict(p.split("=", 1) for p in txt.rstrip(":").split(";") if "=" in p)
+                want_h = "1" if lines else "<self.rendered_size[1]>"
+                ck.ob("R3", ret, kv.get("width") == "<self.rendered_size[0]>" and kv.get("height") == want_h and kv.get("preserveAspectRatio") == "0" and kv.get("inline") == "1",
+                      f"iterm2 control data must carry width=<rendered width>, {'height=1 (one row per strip)' if lines else 'height=<rendered height>'}, preserveAspectRatio=0, inline=1; found `{txt[:120]}`",
+                      stmt=f"iterm2 {'LINES' if lines else 'WHOLE/ANIM'}: width/height keys")
+                ck.ob("R3", ret, kv.get("size") == "<compressed_image.tell()>", f"size= must be the length of the encoded buffer (compressed_image.tell()); found `{kv.get('size')}`", stmt="iterm2: size={compressed_image.tell()}")
+    ck.expect(n_ctl >= 12, f"iterm2 renderer: expected >= 12 (case, image command) pairs, found {n_ctl}")
+    # strips: PIL.Image.frombytes(mode, (w, h), <raw>.read(n)) with n == w * h * len(mode), h == pixel height // rendered height
+    fbs = [c for c in body_walk(ir) if isinstance(c, ast.Call) and norm(c.func).endswith("Image.frombytes")]
+    ck.expect(len(fbs) == 1 and len(fbs[0].args) == 3 and isinstance(fbs[0].args[1], ast.Tuple) and len(fbs[0].args[1].elts) == 2, "iterm2 renderer: the per-strip PIL.Image.frombytes(mode, (w, h), data) not recognised")
+    if len(fbs) == 1 and len(fbs[0].args) == 3 and isinstance(fbs[0].args[1], ast.Tuple) and len(fbs[0].args[1].elts) == 2:
+        fb = fbs[0]
+        # `img` is rebound by the per-strip `with ... as img`; it is compared as a symbol (the strips have the mode of the whole image)
+        ivar = next((n.id for n in ast.walk(fb.args[0]) if isinstance(n, ast.Name)), "img")
+        mode_t, w_t, h_t = trace(ir, fb.args[0], keep=(ivar,)), trace(ir, fb.args[1].elts[0], keep=(ivar,)), trace(ir, fb.args[1].elts[1], keep=(ivar,))
+        data_t = trace(ir, fb.args[2], keep=(ivar,))
+        b_ = match_expr("$raw.read($n)", data_t)
         try:
-            okb = bb is not None and equal(bb["e"], parse("width * cell_height * len(img.mode)"))
+            okn = b_ is not None and equal(b_["n"], ast.BinOp(left=ast.BinOp(left=w_t, op=ast.Mult(), right=h_t), op=ast.Mult(), right=ast.Call(func=ast.Name(id="len", ctx=ast.Load()), args=[mode_t], keywords=[])))
         except NotPoly:
-            okb = False
-        ck.ob("R2", ir, okb, f"iterm2 LINES: a strip is width * cell_height * len(img.mode) bytes; found `{norm(bb['e']) if bb else None}`", stmt="iterm2 LINES: bytes per strip")
-        chs = find_stmts(f"cell_height = height // {rh}", body_walk(ir))
-        ck.ob("R3", ir, len(chs) == 1, "iterm2 LINES: cell_height = height // r_height", stmt="iterm2 LINES: cell_height")
+            okn = False
+        ck.ob("R2", enclosing_stmt(fb), okn and "tobytes()" in norm(b_["raw"]), f"iterm2 LINES: a strip is width * cell_height * len(img.mode) bytes of the converted image's raw data; found `{norm(data_t)[:140]}`", stmt="iterm2 LINES: bytes per strip")
+        gdi = next((c for c in body_walk(ir) if isinstance(c, ast.Call) and (call_name(c) or "").endswith("_get_render_data")), None)
+        szi = trace(ir, kw(gdi, "size")) if gdi is not None and kw(gdi, "size") is not None else None
+        bs = match_expr("($P[0], $P[1])", szi) if szi is not None else None
+        ck.expect(bs is not None, "iterm2 renderer: _get_render_data(size=(w, h)) not recognised")
+        if bs is not None:
+            Pn = norm(bs["P"])
+            try:
+                okh = equal(h_t, parse(f"({Pn})[1] // self.rendered_size[1]")) and equal(w_t, parse(f"({Pn})[0]"))
+            except NotPoly:
+                okh = False
+            ck.ob("R3", enclosing_stmt(fb), okh, f"iterm2 LINES: strips are <pixel width> x (<pixel height> // <rendered height>); found {norm(w_t)[:60]} x {norm(h_t)[:80]}", stmt="iterm2 LINES: cell_height")
 
     # ---- R4 ----------------------------------------------------------------------------
     def method_seq(node, recv):
         out = []
         for c in walk_local(node):
             if isinstance(c, ast.Call) and isinstance(c.func, ast.Attribute) and norm(c.func.value) == recv:
-                out.append((c.lineno, c.col_offset, c.func.attr + "(" + ",".join(norm(a) for a in c.args) + ")"))
+                out.append((c.lineno, c.col_offset, c.func.attr + "(" + ",".join({"io.SEEK_END": "2", "os.SEEK_END": "2", "io.SEEK_SET": "0", "os.SEEK_SET": "0"}.get(norm(a), norm(a)) for a in c.args) + ")"))
             elif isinstance(c, ast.Call) and any(norm(a) == recv for a in c.args) and isinstance(c.func, ast.Attribute) and c.func.attr == "save":
                 out.append((c.lineno, c.col_offset, "save-into"))
         return [x[2] for x in sorted(out)]
@@ -213,7 +301,11 @@ def run(ck, m):
     ck.ob("R5", gate, len(conj) == 6, f"the gate has {len(conj)} conjuncts, 6 documented", stmt="read-from-file gate: exactly the documented conjuncts")
     op = next((c for s in gate.body for c in walk_local(s) if isinstance(c, ast.Call) and call_name(c) == "open"), None)
     ck.ob("R5", gate, op is not None and len(op.args) == 2 and norm(op.args[1]) == "'rb'", "the source file must be opened 'rb'", stmt="read-from-file: open(..., 'rb')")
-    ck.ob("R5", gate, any(norm(s) == "frame_img = None" for s in gate.body), "the branch must set frame_img = None so that the PIL image is still released", stmt="read-from-file: frame_img = None")
+    rel_ = [b_ for s_, b_ in find_stmts("if $$v is not img:\n    self._close_image(img)", body_walk(ir))]
+    ck.expect(len(rel_) == 1, "iterm2 renderer: `if <frame image> is not img: self._close_image(img)` not recognised")
+    if len(rel_) == 1:
+        fv = norm(rel_[0]["v"])
+        ck.ob("R5", gate, any(norm(s) == f"{fv} = None" for s in gate.body), f"the branch must set {fv} = None so that the PIL image is still released", stmt="read-from-file: frame_img = None")
 
     # ---- R6 ----------------------------------------------------------------------------
     cp = m.get(KT, "Transmission.compress")
